@@ -1563,3 +1563,97 @@ Proof.
       unfold key_node, KBatch. cbn. apply nid_eta. }
     destruct (n_marker (s n) <? idx); [rewrite supd_other by auto|]; exact HF.
 Qed.
+
+(* ---------- RemoveNodeData in the batched format ---------- *)
+
+Lemma remove_node_data_RB : forall d s n, RB d s ->
+  exists d', batched_step d (ORemNode n) = Some d' /\ RB d' (spec_step s (ORemNode n)).
+Proof.
+  intros d s n (HS & HW & H). pose proof (H n) as [Hn HBn HCn]. apply Rn_G in Hn.
+  pose proof max_index_u64 as HU.
+  destruct (list_snapshots_spec (p_kv d) n HS HW) as (l & HL & Hl).
+  cbn [batched_step]. unfold b_remove_node_data. rewrite HL. eexists. split; [reflexivity|].
+  set (m1 := kv_commit (p_kv d) (remove_node_wb n l)).
+  set (c1 := cs_remove_node_data (cs_set_max_index (p_cache d) n 0) n).
+  assert (HS1 : sorted m1) by now apply sorted_commit.
+  assert (HW1 : WT m1).
+  { apply WT_commit; auto. intros k v HI. unfold remove_node_wb in HI. apply in_app_or in HI.
+    destruct HI as [HI|HI]; [cbn in HI; intuition discriminate|].
+    apply in_map_iff in HI. destruct HI as (x & X & _). discriminate. }
+  assert (HG : forall k, kv_get m1 k = match wb_last (remove_node_wb n l) k with Some r => r | None => kv_get (p_kv d) k end)
+    by (intros; now apply get_commit).
+  destruct (b_remove_sorted_wt (mkDB m1 c1) n u64max HS1 HW1) as [HS2 HW2].
+  split; [exact HS2 | split; [exact HW2|]].
+  assert (Hcache : p_cache (b_remove_entries_to (mkDB m1 c1) n u64max) = c1).
+  { unfold b_remove_entries_to. now destruct ((batch_id u64max =? 0) || (batch_id u64max =? 1)). }
+  rewrite Hcache. cbn [spec_step].
+  assert (Hbig : 2 <=? batch_id u64max = true) by (vm_compute; reflexivity).
+  assert (HO : forall k, (forall b, k <> KBatch n b) ->
+            kv_get (p_kv (b_remove_entries_to (mkDB m1 c1) n u64max)) k = kv_get m1 k).
+  { intros k Hk. rewrite b_remove_get by auto. rewrite Hbig. cbn [andb p_kv].
+    destruct (in_rangeb _ _ false k) eqn:E; [|reflexivity].
+    apply batch_range_spec in E. destruct E as (b & -> & _). exfalso. eapply Hk; eauto. }
+  intros n'. destruct (nid_eqb n' n) eqn:EN.
+  - apply nid_eqb_eq in EN. subst n'. rewrite supd_same.
+    assert (HSN : forall i, kv_get m1 (KSnapshot n i) = None).
+    { intros i. rewrite HG, remove_node_wb_last.
+      destruct (existsb _ _) eqn:E; auto.
+      rewrite !key_eqb_neq by (intros X; ktags; inversion X).
+      destruct (kv_get (p_kv d) (KSnapshot n i)) eqn:G; auto. exfalso.
+      destruct (HW _ _ G) as (_ & W & _). destruct (W eq_refl) as (old & -> & Wi). cbn in Wi.
+      destruct (N.le_gt_cases i u64max) as [X|X].
+      - assert (In old l) as HI by (apply Hl; rewrite Wi; auto).
+        apply not_true_iff_false in E. apply E. apply existsb_snap_keys. exists old. now rewrite Wi.
+      - rewrite (r_snap_hi _ _ _ _ Hn i) in G; [discriminate|]. pose proof (r_ssb _ _ _ _ Hn).
+        change (n_ssidx (strip (s n))) with (n_ssidx (s n)) in *. lia. }
+    assert (c1 n = mkC None (Some 0) None None) as Hc1.
+    { unfold c1, cs_remove_node_data, cs_set_max_index, cupd. cbv beta. now rewrite !nid_eqb_refl. }
+    rewrite Hc1.
+    (* no batch of the node is left *)
+    assert (HNB : forall b, kv_get (p_kv (b_remove_entries_to (mkDB m1 c1) n u64max)) (KBatch n b) = None).
+    { intros b. rewrite b_remove_get by auto. rewrite Hbig. cbn [andb p_kv].
+      destruct (in_rangeb _ _ false (KBatch n b)) eqn:E; [reflexivity|].
+      rewrite HG, (wb_last_none (remove_node_wb n l)).
+      - destruct (kv_get (p_kv d) (KBatch n b)) as [v|] eqn:G; [|reflexivity]. exfalso.
+        destruct (bc_typed _ _ _ _ HBn _ _ G) as (raw & ->).
+        destruct (bc_all _ _ _ _ HBn _ _ G) as (R1 & R2 & R3 & R4).
+        assert (exists x, In x (restore_if_many raw)) as (x & HX).
+        { destruct raw as [|r0 [|r1 rr]]; [contradiction | exists r0; now left |].
+          cbn [restore_if_many]. unfold restore_batch. destruct (e_term _ =? 0); exists r0; now left. }
+        destruct (R3 x HX) as (A1 & _ & A3).
+        apply not_true_iff_false in E. apply E. apply batch_range_spec. exists b. split; [reflexivity|].
+        rewrite <- A1. unfold max_index in A3. bid. unfold u64max. lia.
+      - intros o HI X. pose proof (remove_node_wb_no_batch n l o HI) as NB. apply NB. rewrite X. reflexivity. }
+    constructor.
+    + change (strip empty_node) with empty_node.
+      constructor; cbn [empty_node n_marker n_ents n_st n_ss n_mterm c_state c_max c_snap].
+      * exact I.
+      * intros e [].
+      * right. split; [|reflexivity]. rewrite HO by (intros b X; ktags; inversion X).
+        rewrite HG, remove_node_wb_last. destruct (existsb _ _); auto. now rewrite key_eqb_refl.
+      * intros v X. inversion X. reflexivity.
+      * rewrite HO by (intros b X; ktags; inversion X). rewrite HG, remove_node_wb_last.
+        destruct (existsb _ _); auto.
+        rewrite !(key_eqb_neq (KState n)) by (intros X; ktags; inversion X). now rewrite key_eqb_refl.
+      * intros st X. discriminate.
+      * intros i _. rewrite HO by (intros b X; ktags; inversion X). apply HSN.
+      * intros i. rewrite HO by (intros b X; ktags; inversion X). apply HSN.
+      * intros v X. discriminate.
+      * unfold n_ssidx, max_index. cbn. lia.
+      * unfold n_last, max_index, nlen. cbn. lia.
+    + constructor; cbn [empty_node n_marker n_ents n_mterm].
+      * exact I.
+      * intros b v X. rewrite HNB in X. discriminate.
+      * intros b raw X. rewrite HNB in X. discriminate.
+      * intros e [].
+      * intros lb X. discriminate.
+    + exact I.
+  - assert (n' <> n) as HN by (intros ->; rewrite nid_eqb_refl in EN; discriminate).
+    rewrite supd_other by auto.
+    assert (c1 n' = p_cache d n') as ->.
+    { unfold c1, cs_remove_node_data, cs_set_max_index, cupd. cbv beta. now rewrite !EN. }
+    eapply RB1_ext; [apply H|]. intros k Hk.
+    rewrite HO.
+    + rewrite HG, remove_node_wb_other; auto. rewrite Hk. auto.
+    + intros b X. subst k. apply HN. rewrite <- Hk. unfold key_node, KBatch. cbn. apply nid_eta.
+Qed.
